@@ -1371,7 +1371,18 @@ class PlainQuantity(Generic[MagnitudeT], PrettyIPython, SharedRegistryObject):
                 False,
             )
         except DimensionalityError:
-            return bool_result(False)
+            if self.dimensionality != other.dimensionality:
+                return bool_result(False)
+            # Same dimensionality but no direct conversion (an offset unit
+            # against a delta unit): compare root units, as the ordering does.
+            try:
+                return eq(
+                    self.to_root_units()._magnitude,
+                    other.to_root_units()._magnitude,
+                    False,
+                )
+            except (DimensionalityError, OffsetUnitCalculusError):
+                return bool_result(False)
 
     @check_implemented
     def __ne__(self, other):
